@@ -569,8 +569,14 @@ impl GrammarBuilder {
         if ch.len() == 1 && props == NodeProps::default() {
             let param_id = values.iter().find(|v| v.idx == ch[0].0).unwrap().param_id;
             // if param_id is Some, but needs_param is false,
-            // it means this node doesn't have to be parametric if we wrap it (so we do it)
-            if param_id.is_none() || needs_param {
+            // it means this node doesn't have to be parametric if we wrap it (so we do it);
+            // a reference with a parameter expression other than `_` (e.g. `b::incr(_)`) has to be
+            // wrapped too: when it is the whole body of a rule, the caller's parameter replaces
+            // param_id and the expression would be lost
+            let is_plain_ref = param_id
+                .map(|id| self.params.get(id).is_self_ref())
+                .unwrap_or(true);
+            if param_id.is_none() || (needs_param && is_plain_ref) {
                 return NodeRef {
                     idx: ch[0].0,
                     grammar_id: self.curr_grammar_idx,
